@@ -13,7 +13,7 @@
 (*                                                                         *)
 (* Values are nibble sequences because TLC integers are 32 bit.            *)
 (***************************************************************************)
-EXTENDS Naturals, Sequences, FiniteSets, TLC, SequencesExt
+EXTENDS Naturals, Sequences, FiniteSets, TLC, SequencesExt, Json
 
 HexDigit == <<"0","1","2","3","4","5","6","7","8","9","a","b","c","d","e","f">>
 RECURSIVE HexOf(_)
@@ -81,7 +81,58 @@ Result == IF err THEN "Err" ELSE "Ok"
 \* a truncated image is never reported as success; a complete one is
 CutIsError == done => (Result = "Err" <=> cut < Total(sizes))
 
-Emit == /\ \A x \in Vectors : PrintT(<<"VEC", "uint", HexOf(x), HexOf(EncUint(x))>>)
+\* ---------------- data values (write_data / read_data): a tag byte, then the payload
+\*   0 null | 1 integer (decimal text) | 2 double (text) | 3 string | 4 boolean | 5 array (count, elements)
+\*   6 map (count, key / value pairs) | 7 error (text) | 8 source (text, source id) | 9 none
+DV(t, s, i, a) == [t |-> t, s |-> s, i |-> i, a |-> a]
+Ent(k, v) == DV("ent", k, 0, <<v>>)      \* a map entry
+Tag(v) == CASE v.t = "null" -> 0 [] v.t = "int" -> 1 [] v.t = "dbl" -> 2 [] v.t = "str" -> 3 [] v.t = "bool" -> 4
+            [] v.t = "arr" -> 5 [] v.t = "map" -> 6 [] v.t = "err" -> 7 [] v.t = "src" -> 8 [] OTHER -> 9
+Atoms == { DV("null", "", 0, <<>>), DV("none", "", 0, <<>>), DV("int", "0", 0, <<>>), DV("int", "-1", 0, <<>>),
+           DV("int", "9223372036854775807", 0, <<>>), DV("int", "-9223372036854775808", 0, <<>>),
+           DV("dbl", "0.5", 0, <<>>), DV("dbl", "-0", 0, <<>>), DV("dbl", "1e300", 0, <<>>), DV("dbl", "5e-324", 0, <<>>),
+           DV("dbl", "inf", 0, <<>>), DV("dbl", "0.1", 0, <<>>),
+           DV("str", "", 0, <<>>), DV("str", "text with 16+ bytes é日", 0, <<>>), DV("bool", "true", 0, <<>>), DV("bool", "false", 0, <<>>),
+           DV("err", "some error", 0, <<>>), DV("src", "x + 1", 0, <<>>), DV("src", "In('s')", 4711, <<>>), DV("src", "", 16, <<>>) }
+Few == { DV("int", "-1", 0, <<>>), DV("str", "", 0, <<>>), DV("bool", "false", 0, <<>>), DV("null", "", 0, <<>>), DV("src", "In('s')", 4711, <<>>) }
+Arrays1 == { DV("arr", "", 0, q) : q \in UNION { [1..n -> Few] : n \in 0..2 } }
+Maps1 == { DV("map", "", 0, <<>>) } \cup { DV("map", "", 0, <<Ent("k", v)>>) : v \in Few }
+           \cup { DV("map", "", 0, <<Ent("a", v), Ent("b b", w)>>) : v \in Few, w \in {DV("int", "-1", 0, <<>>), DV("null", "", 0, <<>>)} }
+Nested == { DV("arr", "", 0, <<x, y>>) : x \in {DV("arr", "", 0, <<>>), DV("map", "", 0, <<Ent("k", DV("int", "-1", 0, <<>>))>>)},
+                                           y \in {DV("arr", "", 0, <<DV("str", "", 0, <<>>)>>), DV("bool", "false", 0, <<>>)} }
+          \cup { DV("map", "", 0, <<Ent("m", DV("map", "", 0, <<Ent("n", DV("arr", "", 0, <<DV("null", "", 0, <<>>)>>))>>))>>) }
+DataVals == Atoms \cup Arrays1 \cup Maps1 \cup Nested
+
+\* abstract wire form: tag, then tokens <<"S", text>>, <<"U", number>>, <<"B", text>>
+RECURSIVE EncData(_)
+EncData(v) ==
+  <<Tag(v)>> \o
+  CASE v.t \in {"int", "dbl", "str", "err"} -> <<<<"S", v.s>>>>
+    [] v.t = "bool" -> <<<<"B", v.s>>>>
+    [] v.t = "src" -> <<<<"S", v.s>>, <<"U", v.i>>>>
+    [] v.t = "arr" -> <<<<"U", Len(v.a)>>>> \o FoldLeft(LAMBDA acc, x : acc \o EncData(x), <<>>, v.a)
+    [] v.t = "map" -> <<<<"U", Len(v.a)>>>> \o FoldLeft(LAMBDA acc, kv : acc \o <<<<"S", kv.s>>>> \o EncData(kv.a[1]), <<>>, v.a)
+    [] OTHER -> <<>>
+TypeOfTag == <<"int", "dbl", "str", "bool", "arr", "map", "err", "src", "none">>
+RECURSIVE DecData(_)
+RECURSIVE DecMany(_, _, _)
+RECURSIVE DecPairs(_, _, _)
+DecMany(img, n, acc) == IF n = 0 THEN [v |-> acc, rest |-> img]
+                        ELSE LET d == DecData(img) IN DecMany(d.rest, n - 1, Append(acc, d.v))
+DecPairs(img, n, acc) == IF n = 0 THEN [v |-> acc, rest |-> img]
+                         ELSE LET d == DecData(Tail(img)) IN DecPairs(d.rest, n - 1, Append(acc, Ent(img[1][2], d.v)))
+DecData(img) ==
+  LET tag == img[1] t == IF tag = 0 THEN "null" ELSE TypeOfTag[tag] r == Tail(img) IN
+  CASE t \in {"int", "dbl", "str", "err"} -> [v |-> DV(t, r[1][2], 0, <<>>), rest |-> Tail(r)]
+    [] t = "bool" -> [v |-> DV(t, r[1][2], 0, <<>>), rest |-> Tail(r)]
+    [] t = "src" -> [v |-> DV(t, r[1][2], r[2][2], <<>>), rest |-> Tail(Tail(r))]
+    [] t = "arr" -> LET m == DecMany(Tail(r), r[1][2], <<>>) IN [v |-> DV(t, "", 0, m.v), rest |-> m.rest]
+    [] t = "map" -> LET m == DecPairs(Tail(r), r[1][2], <<>>) IN [v |-> DV(t, "", 0, m.v), rest |-> m.rest]
+    [] OTHER -> [v |-> DV(t, "", 0, <<>>), rest |-> r]
+DataRoundTrip == \A v \in DataVals : LET d == DecData(EncData(v) \o <<99>>) IN d.v = v /\ d.rest = <<99>>
+
+Emit == /\ \A v \in DataVals : PrintT(<<"VEC", "data", ToJson(v), Tag(v)>>)
+        /\ \A x \in Vectors : PrintT(<<"VEC", "uint", HexOf(x), HexOf(EncUint(x))>>)
         /\ \A n \in StrLens : \A c \in DOMAIN CharBytes :
              PrintT(<<"VEC", "str", n, c, Representable(n * CharBytes[c]), HexOf(StrHeader(IF n * CharBytes[c] < 4096 THEN n * CharBytes[c] ELSE 0))>>)
 =============================================================================
